@@ -31,6 +31,24 @@ theorem target_under_subdir (h : Handler) (subdir name : Str) :
     · exact normalize_clean' _ _ c h
   cases h <;> exact ⟨List.prefix_append _ _, hc⟩
 
+/-- **A normalised path is a fixed point of the `..`-collapsing loop**: running the loop of
+`normalize_pure_path` over what it returned changes nothing, for every base and path — so a handler that
+normalises a name twice (e.g. `joinpath` on a `FilePath` that was itself produced by `joinpath`) touches the
+same file as one that normalises once. -/
+theorem normalized_is_fixpoint (base path : List Str) :
+    collapse (normalize base path) = normalize base path := by
+  have h := foldl_collapse_of_clean (normalize base path) [] (normalize_clean' base path)
+  simpa [collapse] using h
+
+/-- Resolving a clean relative reference below a clean directory only appends: the directory stays a
+prefix of the result, nothing of it is consumed (no component can climb). -/
+theorem resolve_clean_appends (dir ref : List Str) (hd : Clean dir) (hr : Clean ref) :
+    resolve dir ref = dir ++ ref := by
+  have hc : Clean (dir ++ ref) := fun c hc =>
+    (List.mem_append.mp hc).elim (hd c) (hr c)
+  have h := foldl_collapse_of_clean (dir ++ ref) [] hc
+  simpa [resolve, collapse] using h
+
 /-- `FilePath.joinpath` stays inside the handler-relative space (never climbs above `rootdir`). -/
 theorem joinpath_clean (self : List Str) (path : Str) : Clean (joinpath self path) :=
   normalize_clean' _ _
@@ -203,6 +221,9 @@ end http
 -- Non-vacuity: concrete inputs on which the statements say something.
 example : target .git ['s','u','b'] ['.','.','/','x'] = [['s','u','b'], ['x']] := by decide
 example : normalize [] [['/','a','/','.','.','/','.','.','/','b','/','/','c']] = [['b'], ['c']] := by decide
+-- the fixed point and the append law on concrete values (a path with climbs; a clean reference below a clean dir)
+example : collapse (normalize [['a','/','.','.']] [['.','.','/','b','/','c','/','.','.']]) = [['b']] := by decide
+example : resolve [['s','u','b']] [['x'], ['y']] = [['s','u','b'], ['x'], ['y']] := by decide
 example : quote false [47, 63, 35, 0xC3, 0xA9] = "%2F%3F%23%C3%A9".toList := by decide
 
 /-- the default template, a query template with an encoded slash, and the name/extension escapes -/
